@@ -1170,3 +1170,33 @@ func (cfg *LifeCfg) GenClaimUnderDebt(t *rapid.T, s *Sim) *Action {
 	s.Do(NewAction("claim", p))
 	return NewAction("claim", p)
 }
+
+// GenSecondMigration: while a hand-over of one replica is still pending, another holder of the same
+// data starts a migration too (the pending receiver already holds a shard of the order).
+func (cfg *LifeCfg) GenSecondMigration(t *rapid.T, s *Sim) *Action {
+	for _, m := range sortedShards(s.Last) {
+		if m.Status != ordertypes.ShardMigrating {
+			continue
+		}
+		oid, ok := s.orderListing(m)
+		if !ok {
+			continue
+		}
+		o := s.Last.Orders[oid]
+		for _, sid := range o.Shards {
+			x, ok := s.Last.Shards[sid]
+			if !ok || x.Status != ordertypes.ShardCompleted || x.Sp == m.From || x.Sp == m.Sp {
+				continue
+			}
+			c := s.acctOf(x.Sp)
+			if c < 0 {
+				continue
+			}
+			a := NewAction("migrate", c)
+			a.Data = []string{o.DataId}
+			s.Label("second-migration-while-first-pending")
+			return a
+		}
+	}
+	return cfg.GenMigrate(t, s)
+}
